@@ -78,6 +78,7 @@ def run(F, R, ctx):
     pruning_rule(F, R)
     identity_rule(F, R)
     exported_macros_rule(F, R)
+    filter_reset_rule(F, R)
     R.note("C14: decided are the cache-consultation, registration and rollback clauses only; which names a module graph "
            "exposes (provide / only-in / prefix-in / mangling) is not decided.")
 
@@ -327,3 +328,47 @@ def exported_macros_rule(F, R):
                "(require (only-in \"m.scm\" f)) still makes every macro m.scm provides available to the requirer, although "
                "it asked for f only", fn.loc(fn.blocks[requested_sites[0]].get("line")), sample=True)
     R.floor("C14.f", "insertions of module macros into the importable map", n, 2)
+
+
+def filter_reset_rule(F, R):
+    R.rule("C14.g", "the only-in filter of one require does not leak into the next: in every function of compiler::modules that "
+                    "loops over a module's / program's require objects and fills a per-require filter map (a HashMap from name to "
+                    "optional alias — directly, or through a helper that is handed the map), every turn of the loop passes a "
+                    "clear of that map (or a fresh map) before it is filled (sibling agreement between compile_main and "
+                    "to_top_level_module). nc: a filter that accumulates lets the names listed for an earlier require select — "
+                    "or, absent from a later plain require, exclude — the provides of a later one: the wrong module's value is "
+                    "bound, or a provided name is missing")
+    FILTER = lambda targs: len(targs) > 1 and targs[0] == "InternedString" and "Option<InternedString>" in targs[1]
+    n = 0
+    for name, fn in sorted(F.fns.items()):
+        if not name.startswith("steel::compiler::modules"):
+            continue
+        heads = [i for i, b in fn.calls() if re.search(r"Iterator for Iter<T>\}::next$", b["callee"])
+                 and any("RequireObject" in t for t in b["targs"])]
+        if not heads:
+            continue
+        nodes = [i for i, b in enumerate(fn.blocks) if not b["c"]]
+        comps = lib.sccs(nodes, lambda x: list(fn.succ(x)))
+        for h in heads:
+            comp = [c for c in comps if h in c and len(c) > 1]
+            if not comp:
+                continue
+            comp = set(comp[0])
+            fills = [i for i, b in fn.calls() if i in comp and (
+                (re.search(r"HashMap<K,V,S,A>\}::insert$", b["callee"]) and FILTER(b["targs"])) or
+                (b["callee"] in F.fns and any("HashMap<InternedString,Option<InternedString>" in t for t in F.fns[b["callee"]].d["in"])))]
+            if not fills:
+                continue
+            n += 1
+            clears = {i for i, b in fn.calls() if i in comp and (
+                (re.search(r"HashMap<K,V,S,A>\}::clear$", b["callee"]) and FILTER(b["targs"])) or
+                (re.search(r"HashMap<K,V,S[^}]*\}::(new|default|with_capacity)$", b["callee"]) and FILTER(b["targs"])))}
+            nxt = fn.blocks[h].get("ret")
+            reach = fn.reachable_from([nxt] if nxt is not None else [h], avoid=clears | {h})
+            leak = [f_ for f_ in fills if f_ in reach]
+            R.inst("C14.g", "%s / the per-require filter is reset on every turn of the loop" % fn.short(), bool(clears) and not leak,
+                   "%s fills the only-in filter map inside its loop over the require objects (line %s) on a path that does not "
+                   "clear it first: the names listed for an earlier require are still in the filter when a later require of the "
+                   "same module is processed" % (fn.short(), fn.blocks[leak[0]].get("line") if leak else fn.blocks[fills[0]].get("line")),
+                   fn.loc(fn.blocks[(leak or fills)[0]].get("line")), sample=True)
+    R.floor("C14.g", "loops over require objects that fill an only-in filter", n, 2)
